@@ -1,0 +1,54 @@
+//go:build verif
+
+package sparse
+
+// Contracts for the verification machinery in /verif (see /verif/DESIGN.md).
+// This file contains only comments; it is compiled to nothing.
+
+//@ prop C13
+
+// the valuation an instance denotes: missing values are the identity
+//@ ghost sval(l L, m map[ir.Value]Mapping, v ir.Value) Elem = v in m ? m[v].State : l.Ident()
+
+//@ func (*Instance).Value
+//@   requires ins != nil
+//@   ensures  [val] result == sval(ins.l, ins.Mapping, v)
+
+//@ func (*Instance).Set
+//@   requires ins != nil && ins.Mapping != nil
+//@   modifies ins.Mapping
+//@   ensures  [key]    sval(ins.l, ins.Mapping, v) == d
+//@   ensures  [others] forall w ir.Value :: {sval(ins.l, ins.Mapping, w)} w != v ==> sval(ins.l, ins.Mapping, w) == sval(ins.l, old(ins.Mapping), w)
+
+//@ extern (honnef.co/go/tools/go/ir.Value).Name() string
+//@   pure
+//@ extern (honnef.co/go/tools/go/ir.Instruction).Referrers() *[]ir.Instruction
+//@   pure
+//@ func printMapping
+//@   trusted
+//@   ensures true
+
+// j is the last mapping for its value among ds[:q]
+//@ ghost lastOcc(ds []Mapping, j int, q int) bool = forall j2 int :: {ds[j2]} j < j2 && j2 < q ==> ds[j2].Value != ds[j].Value
+
+// One step of the worklist algorithm (the body of the main loop): after the mappings ds
+// produced for instr have been processed,
+//   [stored] the valuation agrees with the (last) mapping produced for each value, and
+//   [enq]    if the valuation changed anywhere, every referrer of instr is on the worklist.
+// The global claim (least fixpoint on termination) is NOT derived from these step facts here.
+//@ func (*Instance).Forward
+//@   uses     dfa:semilattice
+//@   requires ins != nil
+//@   nosafe   all
+//@   may_panic
+//@   modifies heap
+//@   loop 6   index q
+//@   loop 6   ghost m0 = ins.Mapping
+//@   loop 6   ghost w0 = worklist
+//@   loop 6   invariant [stored] forall j int :: {ds[j]} 0 <= j && j < q && lastOcc(ds, j, q) ==> sval(ins.l, ins.Mapping, ds[j].Value) == ds[j].State
+//@   loop 6   invariant [enq]    forall v ir.Value, k int :: {sval(ins.l, ins.Mapping, v), (*instr.Referrers())[k]} sval(ins.l, ins.Mapping, v) != sval(ins.l, m0, v) && 0 <= k && k < len(*instr.Referrers()) ==> (*instr.Referrers())[k] in worklist
+//@   loop 6   invariant [grow]   forall x ir.Instruction :: {x in worklist} x in w0 ==> x in worklist
+//@   loop 7   index r
+//@   loop 7   ghost w1 = worklist
+//@   loop 7   invariant [grow]   forall x ir.Instruction :: {x in worklist} x in w1 ==> x in worklist
+//@   loop 7   invariant [added]  forall k int :: {(*instr.Referrers())[k]} 0 <= k && k < r ==> (*instr.Referrers())[k] in worklist
